@@ -54,7 +54,7 @@ def run(ctx):
     n, nt = replay(ctx, res, "pairs")
     counts = {"lists<=2": n}
     if ctx.tier == "thorough":
-        res = ctx.tlc("Cascade", None, workers=8, cfg_text=CFG % 3, simulate="num=8000", depth=8, timeout=900)
+        res = ctx.tlc("Cascade", None, workers=8, cfg_text=(CFG % 3).replace("INIT Init", "INIT InitBuild"), simulate="num=1500", depth=12, timeout=900)
         n3, nt3 = replay(ctx, res, "triples")
         counts["simulated lists of 3"] = n3
         n += n3
